@@ -28,7 +28,16 @@ prefer = common.prefer
 
 
 def queries(tier, seed=0):
-    return dyn.base_queries(tier, level='net')
+    qs = dyn.base_queries(tier, level='net')
+    # the stated probability must be the one in force whichever way the action is passed in
+    extra = []
+    for q in dyn.base_queries(tier, level='gen', kinds=('exploit', 'privesc')):
+        if q['shape']['sizes'] == [1, 1] and q.get('os') is None:
+            for dec in ('flat', 'param'):
+                d = dict(q)
+                d['decode'] = dec
+                extra.append(d)
+    return qs + extra
 
 
 run = dyn.run
